@@ -2,7 +2,7 @@
 import re
 
 from ..absint import check_panic_freedom
-from ..cfg import Renderer, walk, show, flat_guards, branches, guards_of
+from ..cfg import Renderer, walk, show, flat_guards, branches, guards_of, strip
 from ..facts import callee_names, short
 from ..util import view, crate_fns, root_name, expr_calls, expr_fields, expr_vars
 from .c05 import ceval
@@ -478,3 +478,23 @@ def check_extcom_writer(prog, r):
         else:
             r.ok("write_extcom: every field of %s goes into the octets written" % ty)
     r.floor("typed extended-community messages written by write_extcom", n, 11)
+    # the raw form: exactly eight octets (an EXTENDED_COMMUNITY attribute is a multiple of 8; anything longer misaligns every
+    # community after it and is refused by the wire decoder)
+    nlen = 0
+    for bi, br in branches(fv, Renderer(fv, depth=10, through_names=True)).items():
+        e = br.expr
+        if e[0] != "bin" or e[1] not in ("Eq", "Ne", "Lt", "Le", "Gt", "Ge"):
+            continue
+        sides = [strip(e[2]), strip(e[3])]
+        lens = [x for x in sides if x[0] == "call" and x[1].endswith("::len") and "value" in expr_fields(x)]
+        consts = [x for x in sides if x[0] == "const"]
+        if len(lens) != 1 or len(consts) != 1:
+            continue
+        nlen += 1
+        if e[1] in ("Eq", "Ne") and consts[0][1] == 8:
+            r.ok("write_extcom: an Unknown community is accepted only with exactly 8 octets")
+        else:
+            r.fail(prog.name(k), "unknown-extcom-length-not-exact", "write_extcom tests the raw community's length with `%s %s`: any length other than 8 must be refused, or the stored attribute is not a "
+                   "multiple of 8 octets (communities after it are misread; the wire decoder treats the attribute as malformed)" % (e[1], consts[0][1]), fv.loc(bi))
+    if nlen == 0:
+        r.unanalysable("write_extcom: no length test on the raw (Unknown) community", fv.loc())
